@@ -77,6 +77,15 @@ def validate(prop, repo=None, jobs=16):
         if meta.get('breaks_property') == prop:
             variants.append({'id': 'seed-' + meta['id'], 'kind': 'mutant', 'what': 'seeded change: ' + meta.get('needs_to_manifest', '')[:120],
                              'edits': 'patch:' + os.path.join(os.path.dirname(mp), 'patch.diff')})
+    # behaviour-preserving refactorings written by independent sub-agents (selftest/benign/): silent for the properties they touch
+    try:
+        bidx = json.load(open(os.path.join(HERE, 'selftest', 'benign', 'index.json')))
+    except Exception:
+        bidx = []
+    for b in bidx:
+        if prop in b.get('properties', []):
+            variants.append({'id': 'refactor-' + b['id'], 'kind': 'benign', 'what': 'independent behaviour-preserving refactoring',
+                             'edits': 'patch:' + os.path.join(HERE, 'selftest', 'benign', b['file'])})
     # two whole-package behaviour-preserving transformations are benign variants of every property
     variants.append({'id': 'global-reformat', 'kind': 'benign', 'what': 'every file regenerated from its AST (layout, comments, line numbers change)', 'edits': 'reformat'})
     variants.append({'id': 'global-rename-locals', 'kind': 'benign', 'what': 'every local variable of every function renamed', 'edits': 'rename-locals'})
